@@ -55,13 +55,13 @@ def gen_case(rng: random.Random, tier: str):
         ops = ["parse"]
         r = rng.random()
         if r < 0.3:
-            ops.append("dumps")  # the write path shares the same type objects
+            ops.append(rng.choice(["dumps", "cdumps"]))  # the write path shares the same type objects
         elif ptrs and r < 0.6:
             ops.append("deref")  # lazy dereference is deferred I/O on the thread's own stream through SHARED pointer types
         elif r < 0.8:
             ops.append("parse2")  # the same bytes once more: anything remembered from the first parse is still "valid"
         elif r < 0.88:
-            ops.append(rng.choice(["dumps", "deref"]))
+            ops.append(rng.choice(["dumps", "deref", "cdumps"]))
         threads.append({"data_seed": rng.getrandbits(32), "data": None, "ops": ops, "root": rng.randrange(8)})
     return {"cfg": cfg, "defs": defs, "threads": threads, "sched_seed": rng.getrandbits(32),
             "n_sched": 16 if tier == "quick" else 60, "trace_enum": rng.random() < 0.3, "opcodes": False,
@@ -117,6 +117,19 @@ def make_script(root, th, mark=None):
                     res.append(("val", observe(v), stream.tell()))
                 elif op == "dumps":
                     res.append(("val", v.dumps().hex()))
+                elif op == "cdumps":
+                    # the class-level entry points, for the root type AND for the types of its first fields (several
+                    # different types go through the same descriptor one after the other)
+                    out = [type(v).dumps(v).hex()]
+                    for f in type(v).__fields__[:4]:
+                        try:
+                            out.append(f.type.dumps(getattr(v, f._name)).hex())
+                        except Exception as e:  # noqa: BLE001
+                            out.append(type(e).__name__)
+                    w = io.BytesIO()
+                    type(v).write(w, v)
+                    out.append(w.getvalue().hex())
+                    res.append(("val", out))
                 elif op == "deref":
                     out = []
                     _walk_pointers(v, out)
